@@ -101,7 +101,8 @@ class MemoryStorageBackend(StorageBackend):
     ) -> bytes:
         # Ignore retry_on_none since the in-memory metadata store is consistent.
         memento_key = self._get_memento_key(fn_with_arg_hash)
-        metadata_dict = self.metadata[memento_key]  # type: Dict[str, bytes]
+        # A look-up must not create an entry (self.metadata is a defaultdict)
+        metadata_dict = self.metadata.get(memento_key, {})  # type: Dict[str, bytes]
         return metadata_dict.get(key)
 
     def write_metadata(
